@@ -376,9 +376,8 @@ def enforce(A: spmatrix,
     start = Aout.indptr[D]
     stop = Aout.indptr[D + 1]
     count = stop - start
-    idx = np.ones(count.sum(), dtype=np.int32)
-    idx[np.cumsum(count)[:-1]] -= count[:-1]
-    idx = np.repeat(start, count) + np.cumsum(idx) - 1
+    offset = np.cumsum(count) - count
+    idx = np.repeat(start - offset, count) + np.arange(count.sum())
     Aout.data[idx] = 0.
 
     # set diagonal value
